@@ -482,6 +482,25 @@ func (p *pool) rules(t *rapid.T) map[string]func(*rapid.T) {
 				x.m.RemoveRange(s, e-1)
 			}
 		},
+		"andNotOwnPrefix": func(t *rapid.T) {
+			// in-place difference with a bitmap that holds exactly the first k chunks of x (emptying and
+			// dropping them) plus, optionally, a value beyond x's last key: the surviving chunks move down
+			x := p.pick(t, "x")
+			keys := x.m.Keys16()
+			if len(keys) < 2 {
+				t.Skip("needs two chunks")
+			}
+			k := rapid.IntRange(1, len(keys)-1).Draw(t, "k")
+			lim := uint64(keys[k]) << 16
+			ym := x.m.Window(0, lim-1)
+			if rapid.Bool().Draw(t, "beyond") && keys[len(keys)-1] < 0xFFFF {
+				ym.Add(uint64(keys[len(keys)-1]+1)<<16 + 3)
+			}
+			yl := mustMake(t, gen.FromSet(t, "prefix", ym, gen.KindsValid), live.Read)
+			p.log("#%d.AndNot(first %d chunks of itself)", x.id, k)
+			x.b.AndNot(yl.B)
+			x.m = model.AndNot(x.m, ym)
+		},
 		"SetCopyOnWrite": func(t *rapid.T) {
 			x := p.pick(t, "x")
 			if x.tainted {
